@@ -38,6 +38,8 @@ type Job struct {
 	Opts      JobOpts          `json:"opts"`
 	// Mode "tracer": one tracer scenario per entry of Schedules (same index)
 	Tracer []drive.TracerScenario `json:"tracer"`
+	// Mode "cancel": cancel point (number of traces) per schedule index, -1 = reference run
+	CancelAt []int `json:"cancel_at"`
 	// Mode "timer"
 	TimerDefs []drive.TimerDef      `json:"timer_defs"`
 	Timer     []drive.TimerSchedule `json:"timer"`
@@ -113,6 +115,10 @@ func WorkerMain(args []string) int {
 		if job.Opts.Mode == "tracer" {
 			tlog := drive.TracerRun(i, job.Tracer[i])
 			line, _ = json.Marshal(RunLog{Run: i, Log: []drive.Rec{}, TLog: tlog})
+		} else if job.Opts.Mode == "cancel" {
+			p := job.Programs[sch.Prog]
+			log := drive.CancelRun(i, sch.Prog, p, job.CancelAt[i], job.Opts.driveOpts(), fmt.Sprintf("c%d-%d", os.Getpid(), i))
+			line, _ = json.Marshal(RunLog{Run: i, Log: log})
 		} else if job.Opts.Mode == "timer" {
 			tm := drive.TimerRun(i, job.TimerDefs, job.Timer[i], job.Opts.driveOpts().T)
 			line, _ = json.Marshal(RunLog{Run: i, Log: []drive.Rec{}, TmLog: tm})
